@@ -5,6 +5,7 @@ mod seq;
 mod fsops;
 mod provider;
 mod runs;
+mod secrets;
 mod srv;
 mod sse;
 mod surface;
@@ -48,6 +49,7 @@ fn main() {
         "surface" => surface::engine_surface(cases, &mut out),
         "tasklife" => tasklife::engine_tasklife(&rt, cases, &mut out),
         "shellcap" => tasklife::engine_shellcap(&rt, cases, &mut out),
+        "secrets" => secrets::engine_secrets(&rt, cases, &mut out),
         "auth" => auth::engine_auth(cases, &mut out),
         "wslock" => wslock::engine_wslock(&rt, cases, &mut out),
         "runs" => {
